@@ -1,4 +1,167 @@
-import CV.Model.Core.Machine
+import CV.Proofs.InvEffects
+/-
+C05  "If an event asks for completion notification, <name>_complete is fired exactly once, and only
+after the event and every event fired directly or transitively while handling it have been dispatched
+to all their handlers.  It is always eventually fired once that closure has drained, also when some
+of those events were cancelled, stopped, or had handlers that raised."
+
+Machine-level theorems about the small-step core machine (`CV.Model.Core.Step`), i.e. about
+`Manager._fire` (cause linking), `_dispatcher` (`event.effects = 1`, the cancelled branch),
+`_eventDone` and `_effectDone` of circuits/core/manager.py.
+
+Vocabulary (CV/Proofs/InvEffects.lean)
+  * an event `e` is *tracked* when `(s.ev e).cause ≠ none`; `St.e5_kids s e` is the number of events
+    `x ≠ e` with `cause x = some e` (the events linked under `e` by `_fire` that are still tracked:
+    an event clears its own `cause` only in the `_effectDone` iteration that takes it to 0);
+  * `selfDone e` is the ghost flag "e's own done step has been counted" (set in `_eventDone` when it
+    goes through, and in the cancelled branch of `_dispatcher`);
+  * `pendOf stack = some e` when an `.effectDone r e announce` frame is on top of the stack: the
+    decrement of `e` by that `_effectDone` iteration has not happened yet;
+  * `CInv c`: for every tracked e
+        effects e = [¬ selfDone e] + kids e + [pendOf c.stack = some e]      and   1 ≤ effects e,
+    links point to older events, `.effectDone` frames sit only on top of the stack and are never
+    unwound by an exception (no decrement is ever lost), there are no timers.
+
+STATUS.  `unlinked_only_at_zero` and `tracking_restarts_only_at_dispatch` are full (over `Reach`).
+The theorems named `_partial` are stated over `ReachG`.  FULL STATEMENT: the same with `Reach s0 c` in
+place of `ReachG s0 c`.  OBSTACLE: `ReachG` is `Reach` restricted to runs on which `Guard` holds at
+every step taken (`guarded_reach`, `eff_inv_of_guard`), and `Guard` is
+
+   (G1) when `_dispatcher(e)` is entered for a cancelled or complete-requesting event, `e` is fresh
+        (`selfDone e = false`, nothing linked under e) - "every event object is fired, hence
+        dispatched, once" (false for `Timer`, excluded by `InitEff`; believed true otherwise, but
+        proving it needs the queue invariant "an id sits at most once in at most one queue and has not
+        been dispatched" plus "`_currently_handling` / task events are dispatched events");
+   (G2) when `_eventDone(e)` goes through (`waitingHandlers = 0`) for a tracked event, it has not gone
+        through before (`selfDone e = false`).
+
+(G2) is NOT an invariant of the model (`guard_witness`), and not of the code: a handler of `e` that
+runs the task loop (`tick()`; in the model `stop()` called while `running ∧ ¬executing`, which runs
+three inline ticks) while a generator handler of the same `e` is pending makes `_eventDone(e)` go
+through twice - once from `processTask`, once at the end of `_dispatcher` - so `e.effects` is
+decremented twice and `e_complete` fires while an event fired by `e`'s handlers is still being handled
+(`complete_only_when_drained_witness`; reproduced on the real code with a handler that calls
+`self.tick()`, see the report).  So the unrestricted statements are false; stating them over `Reach`
+needs `_eventDone` to go through at most once per dispatch (a repair of the code + model), or a
+precondition that excludes running the task loop from inside a handler.
+-/
 namespace CV.C05
-theorem placeholder : True := trivial
+open CV.Core CV.Core.C05
+
+/-- guarded runs are runs -/
+theorem guarded_reach {s0 : St} {c : Cfg} (h : ReachG s0 c) : Reach s0 c := h.reach
+
+/-- (1) the effects accounting is an invariant of every configuration of a guarded run that starts
+    from a state without tracked events and without timers -/
+theorem eff_inv_partial {s0 : St} (h0 : InitEff s0) : ∀ c, ReachG s0 c → CInv c := reachG_cinv h0
+
+/-- (1) in words: `effects e = [own done still to come] + #{tracked events linked under e}
+    + [a decrement of e is pending on top of the stack]`, and a tracked event is never at 0 -/
+theorem effects_count_partial {s0 : St} (h0 : InitEff s0) (c : Cfg) (hr : ReachG s0 c) (e : Nat)
+    (htr : (c.st.ev e).cause ≠ none) :
+    (c.st.ev e).effects = (if (c.st.ev e).selfDone then 0 else 1) + (c.st.e5_kids e : Int)
+        + (if pendOf c.stack = some e then 1 else 0) ∧
+      1 ≤ (c.st.ev e).effects := by
+  have h := reachG_cinv h0 c hr
+  refine ⟨h.acc.count e htr, ?_⟩
+  rcases h.acc.pos e htr with h1 | h1
+  · exact h1
+  · cases h1
+
+/-- (1) over all runs: if the guard holds in every reachable configuration, so does the invariant -/
+theorem eff_inv_of_guard {s0 : St} (h0 : InitEff s0) (hG : ∀ c, Reach s0 c → Guard c) :
+    ∀ c, Reach s0 c → CInv c :=
+  fun c hr => reachG_cinv h0 c (ReachG.of_reach hG hr)
+
+/-- (2) `complete` only when drained: in the `_effectDone` iteration that takes a tracked event `e`
+    to 0 - the only place where `e_complete` is fired (`St.effectDone1`: when `e.complete ∧ announce`) -
+    `e`'s own handlers are done and no event is linked under `e` any more.  Linked events unlink
+    themselves only in their own such iteration, so this holds transitively for everything that was
+    ever linked under `e`. -/
+theorem complete_only_when_drained_partial {s0 : St} (h0 : InitEff s0) (c : Cfg) (hr : ReachG s0 c)
+    (r e : Nat) (a : Bool) (k : List Frame) (hs : c.stack = .effectDone r e a :: k)
+    (htr : (c.st.ev e).cause ≠ none) (hz : ¬ ((c.st.ev e).effects - 1 > 0)) :
+    (c.st.ev e).selfDone = true ∧ ∀ x, x ≠ e → (c.st.ev x).cause ≠ some e :=
+  (reachG_cinv h0 c hr).drained hs htr hz
+
+/-- (3) at most once: after that step `e` is not tracked any more (`cause = none`, `effects = 0`), so
+    no later `_effectDone` iteration can fire `e_complete` again (`St.effectDone1` does nothing for an
+    untracked event); tracking restarts only in `St.dispComplete`, i.e. at a new dispatch of `e`. -/
+theorem complete_at_most_once_partial (c : Cfg) (r e P : Nat) (a : Bool) (k : List Frame)
+    (hs : c.stack = .effectDone r e a :: k) (hx : c.exn = none)
+    (hc : (c.st.ev e).cause = some P) (hz : ¬ ((c.st.ev e).effects - 1 > 0)) :
+    ((step c).st.ev e).cause = none ∧ ((step c).st.ev e).effects = 0 := by
+  rw [step_cons c _ k hs hx]
+  show ((c.effectDone k r e a).st.ev e).cause = none ∧ ((c.effectDone k r e a).st.ev e).effects = 0
+  rw [Cfg.effectDone_st]
+  exact St.e5_effectDone1_cleared c.st r e P a hc hz
+
+/-- (4) safety form of "always eventually": between runs (empty stack) a tracked event is never stuck
+    at count 0: its count is positive, and under it there is a tracked event (possibly itself) whose
+    own handlers are still to finish.  With (1): once the closure has drained, `complete` has fired. -/
+theorem complete_when_quiescent_partial {s0 : St} (h0 : InitEff s0) (c : Cfg) (hr : ReachG s0 c)
+    (hd : done c = true) (e : Nat) (htr : (c.st.ev e).cause ≠ none) :
+    1 ≤ (c.st.ev e).effects ∧
+      ∃ x, Under c.st x e ∧ (c.st.ev x).cause ≠ none ∧ (c.st.ev x).selfDone = false := by
+  have h := CInv.done_eff0 c (reachG_cinv h0 c hr) hd
+  refine ⟨?_, h.exists_undone _ e (Nat.le_refl _) htr⟩
+  rcases h.pos e htr with h1 | h1
+  · exact h1
+  · cases h1
+
+/-- (5) cancelled descendants: the dispatch of a cancelled event linked under `P` runs no handler and
+    announces nothing, but performs the same decrement: two steps later its link is cleared, no event
+    was created, and the decrement of `P` is pending (or, for a self-caused root, the chain ends). -/
+theorem cancelled_child_released_partial {s0 : St} (h0 : InitEff s0) (c : Cfg) (hr : ReachG s0 c)
+    (hg : Guard c) (r e rem P : Nat) (k : List Frame)
+    (hs : c.stack = .dispatcher r e rem :: k) (hx : c.exn = none)
+    (hcan : (c.st.ev e).cancelled = true) (hc : (c.st.ev e).cause = some P) :
+    (step c).stack = .effectDone r e false :: k ∧
+    ((step (step c)).st.ev e).cause = none ∧
+    (step (step c)).st.evs.length = c.st.evs.length ∧
+    (step (step c)).stack = (if P = e then k else .effectDone r P true :: k) :=
+  (reachG_cinv h0 c hr).cancelled_release hg hs hx hcan hc
+
+/-- (2b) full: an event is unlinked (its `cause` cleared) only by its own `_effectDone` iteration and
+    only when its count reaches 0 - so "nothing linked under e" in (2) means that every event that was
+    ever linked under `e` has itself been counted down to 0, transitively. -/
+theorem unlinked_only_at_zero {s0 : St} (h0 : s0.timers = []) (c : Cfg) (hr : Reach s0 c) (y : Nat)
+    (htr : (c.st.ev y).cause ≠ none) (hun : ((step c).st.ev y).cause = none) :
+    c.exn = none ∧ ∃ r a k, c.stack = .effectDone r y a :: k ∧ ¬ ((c.st.ev y).effects - 1 > 0) :=
+  untracked_only_at_zero c (reach_timers h0 c hr) y htr hun
+
+/-- (3b) full: the tracking of an existing event can only (re)start at a dispatch of that event
+    (`St.dispComplete`); every other step leaves an untracked event untracked.  (A new event is linked
+    when it is fired: it did not exist before the step.) -/
+theorem tracking_restarts_only_at_dispatch {s0 : St} (h0 : s0.timers = []) (c : Cfg) (hr : Reach s0 c)
+    (y : Nat) (hy : y < c.st.evs.length) (hun : (c.st.ev y).cause = none)
+    (htr : ((step c).st.ev y).cause ≠ none) :
+    c.exn = none ∧ ∃ r rem k, c.stack = .dispatcher r y rem :: k :=
+  tracked_only_at_dispatch c (reach_timers h0 c hr) y hy hun htr
+
+/-! the excluded case is real (model): on the run `cw2` from `s0w` - a handler of `foo` calls `stop()`
+    while the manager is `running` but not `executing`, which runs inline ticks while a generator handler
+    of `foo` is pending - the guard fails and `foo_complete` is fired with `bar` still linked under `foo` -/
+
+/-- the guard (G2) is not an invariant of `Reach` -/
+theorem guard_witness : InitEff s0w ∧ ∃ c, Reach s0w c ∧ ¬ Guard c :=
+  ⟨s0w_init, cw2 86, cw2_reach 86, doubleDone_spec _ cw2_double⟩
+
+/-- `complete_only_when_drained` with `Reach` in place of `ReachG` is false -/
+theorem complete_only_when_drained_witness : InitEff s0w ∧ ∃ c, Reach s0w c ∧
+    ∃ r e a k x, c.stack = .effectDone r e a :: k ∧ c.exn = none ∧ (c.st.ev e).cause ≠ none ∧
+      (c.st.ev e).complete = true ∧ a = true ∧ ¬ ((c.st.ev e).effects - 1 > 0) ∧
+      x ≠ e ∧ (c.st.ev x).cause = some e :=
+  ⟨s0w_init, cw2 87, cw2_reach 87, earlyComplete_spec _ cw2_early⟩
+
+/-! non-vacuity -/
+
+/-- `InitEff`: a state with a complete-requesting event that is not tracked yet -/
+example : InitEff { evs := [{ name := ⟨1, []⟩, complete := true }] } :=
+  ⟨rfl, fun e => by cases e <;> rfl⟩
+
+/-- `ReachG`: start configurations are guarded-reachable, and `Guard` holds in them -/
+example (s0 : St) : ReachG s0 (startOf (envChange s0 0 []) (.flush 0)) := ReachG.init 0 [] (.flush 0)
+example (s0 : St) : Guard (startOf (envChange s0 0 []) (.flush 0)) := fun _ => trivial
+
 end CV.C05
